@@ -44,7 +44,7 @@ package crypto
 //@ iface (github.com/drand/kyber/sign.ThresholdScheme).IndexOf(ts, sig) (i, err)
 //@   trusted kyber tbls: index prefix of a partial signature
 //@   modifies nothing
-//@   ensures err == nil ==> i == idxOf(sig)
+//@   ensures err == nil ==> i == idxOf(sig) && 0 <= i && i < 65536 && len(sig) >= 2
 
 //@ iface (github.com/drand/kyber/sign.ThresholdScheme).Recover(ts, public, msg, sigs, t, n) (sig, err)
 //@   trusted kyber tbls: Recover re-verifies each share and needs t valid ones (assumed)
